@@ -520,6 +520,9 @@ func replayC02(o *Obligation) (string, string, string, bool) {
 	if strings.HasPrefix(o.Name, "stream.") {
 		return "serializer", "stream", streamReplay(true), true
 	}
+	if strings.HasPrefix(o.Name, "serix.") {
+		return "serializer", "serix", replayC02JSON, true
+	}
 	m := reC02.FindStringSubmatch(o.Name)
 	if m == nil {
 		return "", "", "", false
@@ -1337,6 +1340,31 @@ func TestVerifReplay(t *testing.T) {
 			}
 		}
 		mu.Unlock()
+	}
+
+	// (3) a daemon that was shut down before it was started stays stopped: Start must not run any registered worker
+	{
+		d := New()
+		started := make(chan struct{}, 2)
+		release := make(chan struct{})
+		handler := func(ctx context.Context) {
+			started <- struct{}{}
+			select {
+			case <-ctx.Done():
+			case <-release:
+			}
+		}
+		_ = d.BackgroundWorker("A", handler, 2)
+		_ = d.BackgroundWorker("B", handler, 1)
+		d.ShutdownAndWait()
+		d.Start()
+		select {
+		case <-started:
+			close(release)
+			t.Fatalf("REPLAY-VIOLATION BackgroundWorker A, B; ShutdownAndWait; Start: a background worker was started after the daemon had been shut down (nobody can stop it any more)")
+		case <-time.After(200 * time.Millisecond):
+		}
+		close(release)
 	}
 }
 `
@@ -2545,6 +2573,87 @@ func TestVerifReplay(t *testing.T) {
 		case <-doneB:
 		case <-time.After(5 * time.Second):
 			t.Fatalf("REPLAY-VIOLATION Add/Delete of the SortedSet is blocked (deadlock with the weight writer)")
+		}
+	}
+}
+`
+
+// JSON / map decoding of serix: well-formed JSON of the wrong shape must yield an error, never a panic
+const replayC02JSON = `package serix_test
+
+import (
+	"context"
+	"testing"
+	"time"
+
+	"github.com/iotaledger/hive.go/serializer/v2/serix"
+)
+
+type rpI64 struct{ V int64 ` + "`serix:\"\"`" + ` }
+type rpU8 struct{ V uint8 ` + "`serix:\"\"`" + ` }
+type rpI32 struct{ V int32 ` + "`serix:\"\"`" + ` }
+type rpU64 struct{ V uint64 ` + "`serix:\"\"`" + ` }
+type rpF struct{ V float64 ` + "`serix:\"\"`" + ` }
+type rpB struct{ V bool ` + "`serix:\"\"`" + ` }
+type rpS struct{ V string ` + "`serix:\",lenPrefix=uint8\"`" + ` }
+type rpArr struct{ V [4]byte ` + "`serix:\"\"`" + ` }
+type rpSl struct{ V []byte ` + "`serix:\",lenPrefix=uint8\"`" + ` }
+type rpStrs struct{ V []string ` + "`serix:\",lenPrefix=uint8\"`" + ` }
+type rpT struct{ V time.Time ` + "`serix:\"\"`" + ` }
+type rpTyped struct{ V uint8 ` + "`serix:\"\"`" + ` }
+type rpInner struct{ A uint8 ` + "`serix:\"\"`" + ` }
+type rpArr16 struct{ V [2]uint16 ` + "`serix:\"\"`" + ` }
+type rpMap struct{ V map[string]uint8 ` + "`serix:\",lenPrefix=uint8\"`" + ` }
+type rpPtr struct{ V *rpInner ` + "`serix:\",optional\"`" + ` }
+type rpNums struct{ V []uint64 ` + "`serix:\",lenPrefix=uint8\"`" + ` }
+type rpNest struct{ V rpInner ` + "`serix:\"\"`" + ` }
+
+func TestVerifReplay(t *testing.T) {
+	api := serix.NewAPI()
+	// every JSON value kind for the field "v"
+	vals := []string{"5", "1.5", "\"x\"", "\"0x01020304\"", "true", "null", "[1,2]", "[\"a\"]", "{\"a\":1}", "{}"}
+	targets := []func() any{
+		func() any { return &rpI64{} }, func() any { return &rpU8{} }, func() any { return &rpI32{} }, func() any { return &rpU64{} },
+		func() any { return &rpF{} }, func() any { return &rpB{} }, func() any { return &rpS{} }, func() any { return &rpArr{} },
+		func() any { return &rpSl{} }, func() any { return &rpStrs{} }, func() any { return &rpT{} }, func() any { return &rpNest{} },
+		// (non-byte arrays such as [2]uint16 are left out: map decoding them panics inside reflect for EVERY document, also a
+		// valid one - sliceFromArray hands mapDecodeSlice an unaddressable copy; a missing feature outside these contracts,
+		// see DESIGN.md 12.18)
+		func() any { return &rpMap{} }, func() any { return &rpPtr{} }, func() any { return &rpNums{} },
+	}
+	// an object with a registered type code: the "type" key of the document may hold anything
+	if err := api.RegisterTypeSettings(rpTyped{}, serix.TypeSettings{}.WithObjectType(uint8(7))); err != nil {
+		t.Fatal(err)
+	}
+	for _, v := range vals {
+		doc := "{\"type\": " + v + ", \"v\": 1}"
+		func() {
+			defer func() {
+				if r := recover(); r != nil {
+					t.Fatalf("REPLAY-VIOLATION JSONDecode(%s) into an object with a registered type code panicked: %v", doc, r)
+				}
+			}()
+			_ = api.JSONDecode(context.Background(), []byte(doc), &rpTyped{})
+		}()
+	}
+	for _, mk := range targets {
+		for _, v := range vals {
+			for _, validate := range []bool{false, true} {
+				doc := "{\"v\": " + v + "}"
+				obj := mk()
+				func() {
+					defer func() {
+						if r := recover(); r != nil {
+							t.Fatalf("REPLAY-VIOLATION JSONDecode(%s) into %T (validation %v) panicked: %v", doc, obj, validate, r)
+						}
+					}()
+					if validate {
+						_ = api.JSONDecode(context.Background(), []byte(doc), obj, serix.WithValidation())
+					} else {
+						_ = api.JSONDecode(context.Background(), []byte(doc), obj)
+					}
+				}()
+			}
 		}
 	}
 }
